@@ -165,7 +165,8 @@ static int pctx_to_pem(EVP_PKEY_CTX *pctx, OSSL_PARAM *params,
 	EVP_PKEY_get_size_t_param(pkey, OSSL_PKEY_PARAM_BITS,
 				  &item->bits);
 
-	/* From here after, we don't fail. PEM is optional. */
+	/* From here after, we only fail if the key itself cannot be written
+	 * out (e.g. an EC private value that is not in range). */
 	ret = 0;
 
 	bio = BIO_new(BIO_s_mem());
@@ -179,10 +180,9 @@ static int pctx_to_pem(EVP_PKEY_CTX *pctx, OSSL_PARAM *params,
 		ret = PEM_write_bio_PUBKEY(bio, pkey);
 
 	if (!ret) {
-		// LCOV_EXCL_START
-		ret = 0;
+		jwt_write_error(item, "Unable to create PEM from pkey");
+		ret = -1;
 		goto cleanup_pem;
-		// LCOV_EXCL_STOP
 	}
 
 	len = BIO_get_mem_data(bio, &src);
